@@ -163,6 +163,68 @@ def make_long_complex(rng, nA=None, nB=None, chains=('A', 'B')):
     return Complex(residues)
 
 
+def make_large_complex(rng, n_big, n_small_res=None, chains=('A', 'B'), big_first=True, hydrogens=True, where=None, layout=None, gap=None):
+    """a LARGE two-chain complex: one chain of EXACTLY `n_big` ATOM records (hundreds to thousands: protonated receptors) and a small
+    partner of `n_small_res` residues that lies along a window of the big chain.  Residues: backbone + 0-3 side-chain atoms
+    (+ 1-3 hydrogens H/HA/1HB/HD21 when `hydrogens`), every atom within 1.5 A of its residue centre; centres 4 A apart along a straight
+    line (`layout`='line') or a serpentine of rows 10 A apart ('serpentine').  `where` places the window of the big chain that faces
+    the partner: 'start', 'end' (the last residues: atom positions n_big-..n_big), 'straddle' (around a given atom position
+    `where=('straddle', pos)`) or 'random'.  `big_first`: the big chain carries chains[0] (and comes first in the file).
+    Returns (Complex, info) with info = {'window': (first residue index, last), 'big': chain id, 'small': chain id}."""
+    layout = layout or rng.choice(['line', 'serpentine'])
+    gap = gap if gap is not None else rng.choice([3.2, 3.8, 4.5])
+    n_small_res = n_small_res if n_small_res is not None else rng.randint(12, 36)
+    big, small = (chains[0], chains[1]) if big_first else (chains[1], chains[0])
+    ncols = 40
+
+    def centre(k):
+        if layout == 'line':
+            return (4.0 * k, 0.0, 0.0)
+        row, col = divmod(k, ncols)
+        return (4.0 * (col if row % 2 == 0 else ncols - 1 - col), 0.0, 10.0 * row)
+
+    def residue(chain, num, c, dy):
+        names = list(BACKBONE) + SIDE[:rng.randint(0, 3)]
+        if hydrogens:
+            names += HYDRO[:rng.randint(1, 3)] if rng.random() < 0.8 else [HYDRO[rng.randrange(4)]]
+        atoms = [(nm, el, (round(c[0] + rng.uniform(-1.5, 1.5), 3), round(c[1] + dy + rng.uniform(-1.5, 1.5), 3),
+                           round(c[2] + rng.uniform(-1.5, 1.5), 3))) for nm, el in names]
+        if rng.random() < 0.3:
+            rng.shuffle(atoms)                      # hydrogens / side chain not always after the backbone
+        return {'chain': chain, 'resSeq': num, 'resName': rng.choice(RESN), 'atoms': atoms}
+
+    bigres, count, k = [], 0, 0
+    start = rng.choice([1, 1, 17, -5])
+    while count < n_big:
+        r = residue(big, start + k, centre(k), 0.0)
+        r['atoms'] = r['atoms'][:n_big - count]
+        count += len(r['atoms'])
+        bigres.append(r)
+        k += 1
+    nres = len(bigres)
+    n_small_res = min(n_small_res, nres)
+    mode, pos = (where if isinstance(where, tuple) else (where or rng.choice(['end', 'straddle', 'random', 'start']), None))
+    if mode == 'end':
+        first = nres - n_small_res
+    elif mode == 'start':
+        first = 0
+    elif mode == 'straddle':
+        pos = pos if pos is not None else n_big // 2
+        acc, kres = 0, 0
+        for i, r in enumerate(bigres):              # the residue holding atom position `pos` (1-based) of the big chain
+            acc += len(r['atoms'])
+            if acc >= pos:
+                kres = i
+                break
+        first = kres - rng.randint(n_small_res // 4, max(n_small_res // 4, (3 * n_small_res) // 4))
+    else:
+        first = rng.randint(0, nres - n_small_res)
+    first = max(0, min(first, nres - n_small_res))
+    smallres = [residue(small, 1 + j, centre(first + j), gap) for j in range(n_small_res)]
+    res = bigres + smallres if big_first else smallres + bigres
+    return Complex(res), {'window': (first, first + n_small_res - 1), 'big': big, 'small': small, 'layout': layout, 'gap': gap, 'where': mode}
+
+
 def jitter(rng, cx, sigma):
     out = cx.copy()
     for r in out.residues:
@@ -219,7 +281,41 @@ def permute(rng, cx, level):
         order = list(by)
         order.reverse()
         out.residues = [r for c in order for r in by[c]]
+    elif level in NONCONTIGUOUS_LEVELS:
+        # layouts in which the records of ONE residue are NOT contiguous in the file (a residue is then rendered as two or more
+        # blocks of records: `residues` holds several entries with the same chain / resSeq / resName).  The atoms, their residues
+        # and their coordinates are unchanged, so every quantity defined on the set of atoms is unchanged.
+        by = {}
+        for r in out.residues:
+            by.setdefault(r['chain'], []).append(r)
+        bbnames = {n for n, _ in BACKBONE}
+        res = []
+        for c in by:
+            if level == 'backbone_first':           # N CA C O of all residues of the chain first, the other atoms afterwards
+                first = [{**r, 'atoms': [a for a in r['atoms'] if a[0] in bbnames]} for r in by[c]]
+                later = [{**r, 'atoms': [a for a in r['atoms'] if a[0] not in bbnames]} for r in by[c]]
+            elif level == 'heavy_first':            # heavy atoms of all residues first, hydrogens appended (as protonation tools do)
+                first = [{**r, 'atoms': [a for a in r['atoms'] if not a[0].startswith('H')]} for r in by[c]]
+                later = [{**r, 'atoms': [a for a in r['atoms'] if a[0].startswith('H')]} for r in by[c]]
+            elif level == 'tail':                   # one to three atoms of some residues appended at the end of the chain
+                first, later = [], []
+                for r in by[c]:
+                    k = rng.randint(1, 3) if (len(r['atoms']) > 1 and rng.random() < 0.6) else 0
+                    k = min(k, len(r['atoms']) - 1)
+                    idx = set(rng.sample(range(len(r['atoms'])), k))
+                    first.append({**r, 'atoms': [a for i, a in enumerate(r['atoms']) if i not in idx]})
+                    later.append({**r, 'atoms': [a for i, a in enumerate(r['atoms']) if i in idx]})
+                rng.shuffle(later)
+            else:                                   # 'atom_shuffle': all the atoms of the chain in random order
+                first = [{**r, 'atoms': [a]} for r in by[c] for a in r['atoms']]
+                rng.shuffle(first)
+                later = []
+            res += [r for r in first + later if r['atoms']]
+        out.residues = res
     return out
+
+
+NONCONTIGUOUS_LEVELS = ['backbone_first', 'heavy_first', 'tail', 'atom_shuffle']
 
 
 def mirror(cx, axis=2):
